@@ -15,7 +15,7 @@ import os
 
 import vlib
 import progs
-from gen import shapes
+from gen import shapes, stmts
 
 THEOREM_MODULES = ["Yarel.Props.C13", "Yarel.Props.C12", "Yarel.Props.C04", "Yarel.Props.StackGuardThm", "Yarel.Props.FnsTie.NoPanic"]
 REQUIRED_THEOREMS = ["no_fault", "unhashable_rejected_unchanged", "verify_sound", "guard_free_equiv", "vm_binary_op_never_panics", "op_total",
@@ -194,7 +194,10 @@ def correspondence(ctx, model_ok=True):
         sweeps = [p for p in sweeps if not p[0].startswith("natives3:")]
     gen = progs.generated(rng, ["expr", "control", "classes", "fibers", "exceptions", "iteration", "data", "typed", "typed-try"], 1800 if ctx.thorough else 270)
     shp = [("gen:" + n, s) for n, s in shapes.all_shapes()]
-    plist = [(n, s, {}) for n, s in sweeps] + [(n, s, m) for n, s, m, _ in gen] + [(n, s, {}) for n, s in shp]
+    # every statement form of the catalogue (tools/gen/stmts.py) 20 000 times inside one activation: a slot left behind (or taken) per
+    # pass by ANY instruction overruns (or underruns) the 16 384-slot value stack
+    loops = stmts.loop_programs(60000 if ctx.thorough else 20000)
+    plist = [(n, s, {}) for n, s in sweeps] + [(n, s, m) for n, s, m, _ in gen] + [(n, s, {}) for n, s in shp] + loops
     known = KNOWN
     builds = [("release", ctx.runner, {"gc": "default"})]
     try:
@@ -212,14 +215,19 @@ def correspondence(ctx, model_ok=True):
         todo = todo + [(n, s, {}) for n, s, bs in known if bname in bs]
         # one program per process and a generous wall-clock limit: a native sweep performs ~190k operations and, in the checked build
         # (a collection at every allocation), takes minutes
-        heavy = [p for p in todo if not p[0].startswith("gen:")]
+        heavy = [p for p in todo if not p[0].startswith(("gen:", "stmtloop:"))]
         light = [p for p in todo if p[0].startswith("gen:")]
+        lps = [p for p in todo if p[0].startswith("stmtloop:")]
         res_h, _ = progs.run_programs(exe, heavy, mode, steps_budget=400000000, tag=bname[0], timeout_per_batch=5400, batch=1)
+        # short programs, several per process (a process that dies is bisected down to the program that killed it)
+        # (the checked build runs them without collections: this sweep is about the operand stack, and a collection at every allocation
+        # makes 2.3 million passes take minutes)
+        res_p, _ = progs.run_programs(exe, lps, mode if bname == "release" else {"gc": "never"}, steps_budget=400000000, tag=bname[0] + "s", timeout_per_batch=1800, batch=8)
         # generated programs may legitimately run for ever (unbounded recursion trees, long loops): a small step budget, and running
         # out of it is not a failure of THIS property
         res_l, _ = progs.run_programs(exe, light, mode, steps_budget=1500000, tag=bname[0] + "g", timeout_per_batch=900)
-        todo = heavy + light
-        res = res_h + res_l
+        todo = heavy + light + lps
+        res = res_h + res_l + res_p
         n_runs += len(todo)
         for (name, src, mods), r in zip(todo, res):
             bad = outcome_ok(r)
@@ -227,7 +235,7 @@ def correspondence(ctx, model_ok=True):
                 budget_cut += 1
                 bad = None
             c = progs.canon_step(r)
-            if not bad and name.split(":")[0] in ("natives", "natives3", "binop", "misc", "limit") and (c[0] != "ok" or not c[2] or c[2][-1] != "done"):
+            if not bad and name.split(":")[0] in ("natives", "natives3", "binop", "misc", "limit", "stmtloop") and (c[0] != "ok" or not c[2] or c[2][-1] != "done"):
                 bad = "sweep program ended with %s %s instead of running to completion" % (c[0], list(c[3])[:1])
             if not bad and name.startswith("F") and (c[0] != "ok" or c[2][-1:] != ("done",)):
                 bad = "ended with %s %s" % (c[0], list(c[3])[:1])
@@ -261,10 +269,10 @@ def correspondence(ctx, model_ok=True):
                                  "signature": "no-crash: %s: %s" % (hname.split("/")[0], bad.split(":")[0][:40]), "failing_input": True})
     cov = {
         "evaluations": n_runs, "reuse_after_failure_histories": len(hists), "generated_runs_cut_by_the_step_budget": budget_cut,
-        "distinct_nontrivial": len(sweeps) + len(gen) + len(shp), "handler_shape_programs": len(shp),
-        "rule": "sweep programs: every method name x 57 receivers/arguments of every value kind (adversarial pool) x all argument tuples of arity 0-2 "
+        "distinct_nontrivial": len(sweeps) + len(gen) + len(shp) + len(loops), "handler_shape_programs": len(shp), "statement_form_loops": len(loops),
+        "rule": ("sweep programs: every method name x 57 receivers/arguments of every value kind (adversarial pool) x all argument tuples of arity 0-2 "
                 "(+sampled arity 3), every binary operator x all pairs, unary/index/slice/call/property/for/display/hash/throw/type/equality/tuple/range/fiber/"
-                "derive/construct/iterator sweeps, resource-limit programs, ill-typed generated programs; builds: " + ", ".join(b for b, _, _ in builds) +
+                "derive/construct/iterator sweeps, resource-limit programs, ill-typed generated programs, %d statement forms (every instruction family x the kinds of value it dispatches on) repeated 20 000 times in one activation; builds: " % len(loops)) + ", ".join(b for b, _, _ in builds) +
                 "; each sweep program performs ~3.3k-190k operations; distinct = distinct program",
         "samples": [sweeps[0][1][-400:]],
         "operations_per_native_sweep": 57 * (1 + 57 + 57 * 57),
